@@ -39,6 +39,21 @@ e = priority(p.eft) || deny
 m = r.sub == p.sub && r.obj == p.obj && r.act == p.act
 """
 
+# two policy definitions: the first WITHOUT a priority field, the second with one (selected through an enforce context)
+PRIO2 = """[request_definition]
+r = sub, obj, act
+r2 = sub, obj, act
+[policy_definition]
+p = sub, obj, act
+p2 = priority, sub, obj, act, eft
+[policy_effect]
+e = some(where (p.eft == allow))
+e2 = priority(p.eft) || deny
+[matchers]
+m = r.sub == p.sub && r.obj == p.obj && r.act == p.act
+m2 = r2.sub == p2.sub && r2.obj == p2.obj && r2.act == p2.act
+"""
+
 DOM = """[request_definition]
 r = sub, dom, obj, act
 [policy_definition]
@@ -228,6 +243,9 @@ def impl_call(e, op, form):
     if name == "get":
         return cp(e.get_named_grouping_policy(ptype) if G else e.get_named_policy(ptype))
     if name == "enforce":
+        if ptype[1:]:
+            # a second policy definition (p2 ...): the request goes through an enforce context selecting r2/p2/e2/m2
+            return e.enforce(e.new_enforce_context(ptype[1:]), *op[3])
         return e.enforce(*op[3])
     if name == "getfiltered":
         return cp(e.get_filtered_named_grouping_policy(ptype, op[3], *op[4]) if G else e.get_filtered_named_policy(ptype, op[3], *op[4]))
@@ -534,7 +552,8 @@ def replay(obj):
         if s.name == case["shape"]:
             shape = s
     if shape is None:
-        shape = Shape(case["shape"], obj["model_text"], "p", "p", P_RULES, initial=obj.get("initial"), level=obj.get("level", "enforcer"))
+        sec, ptype = (case["history"][0][1], case["history"][0][2]) if case["history"] else ("p", "p")
+        shape = Shape(case["shape"], obj["model_text"], sec, ptype, P_RULES, initial=obj.get("initial"), level=obj.get("level", "enforcer"))
     hist = [tuple(o) for o in case["history"]]
     impl = run_history(shape, hist, 0)
     ires, ipol = impl[-1]
